@@ -143,6 +143,9 @@ type InFile struct {
 	Name  string
 	Data  []byte
 	Saved bool
+	// ExtraStatus is OR-ed into the status field (bit 1 = "checked
+	// successfully"; other bits are unassigned and must be ignored).
+	ExtraStatus uint64
 }
 
 // Parity computes parity volume v (1-based): sum over saved files i
@@ -181,6 +184,7 @@ func Build(files []InFile, volume int, data []byte, version uint64) []byte {
 		if f.Saved {
 			st = 1
 		}
+		st |= f.ExtraStatus &^ 1
 		binary.LittleEndian.PutUint64(e[8:], st)
 		binary.LittleEndian.PutUint64(e[0x10:], uint64(len(f.Data)))
 		h := md5.Sum(f.Data)
